@@ -493,6 +493,53 @@ def t04_disp(run, fx):
             run.ok(rule, "%s: %d dispatch(es), all seven kinds listed" % (path, n))
 
 
+def t04_marks(run, fx):
+    rule = "T04-MARKS"
+    run.rule(rule, "MatchType::match_glyph: the three mark-skipping modes (IgnoreAllMarks, IgnoreMarksExcept a class, IgnoreMarksInSet) decide "
+                   "only about MARK glyphs - in each arm a glyph whose GDEF class is not 3 matches (the arm compares glyph_class with 3 before "
+                   "anything else can reject the glyph); the OpenType lookup flags IgnoreMarks, MarkAttachmentType and UseMarkFilteringSet never "
+                   "skip base or ligature glyphs")
+    bs = [b for b in fx.bodies if b.kind != "Closure" and b.root == "context::MatchType::match_glyph"]
+    if not bs:
+        return run.anchor_missing(rule, "context::MatchType::match_glyph")
+    import shape
+    b = bs[0]
+    prov = sym.Prov(b)
+    sws = [(bi, t) for bi, t in ((i, blk["t"]) for i, blk in enumerate(b.blocks)) if t["k"] == "switch" and b.reachable(bi)]
+    arms = None
+    for bi, t in sws:
+        d = sym.strip(prov.op(t["discr"]))
+        if d[0] == "discr" and any(x[0] == "field" and x[2] == "ignore_marks" for x in sym.walk(d)):
+            arms = (bi, t)
+    if arms is None:
+        return run.anchor_missing(rule, "switch on the IgnoreMarks discriminant in match_glyph")
+    adt = fx.adt("context::IgnoreMarks")
+    names = {i: v["name"] for i, v in enumerate(adt["variants"])} if adt else {}
+    n = 0
+    for val, tgt in arms[1]["arms"]:
+        name = names.get(val, str(val))
+        if name == "NoIgnoreMarks":
+            continue
+        n += 1
+        # blocks of this arm: dominated by the arm target
+        blocks = [i for i in range(len(b.blocks)) if b.reachable(i) and b.dominates(tgt, i)]
+        cmp3 = False
+        for i in blocks:
+            for st in b.blocks[i]["s"]:
+                if st["k"] == "assign" and st["rv"]["k"] == "bin" and st["rv"]["bop"] in ("Ne", "Eq"):
+                    ops = [sym.strip(prov.op(st["rv"]["a"])), sym.strip(prov.op(st["rv"]["b"]))]
+                    if any(o[0] == "c" and o[1] == 3 for o in ops) and any(
+                            any(x[0] == "call" and (x[1] or "").endswith("glyph_class") for x in sym.walk(o)) for o in ops):
+                        cmp3 = True
+        if cmp3:
+            run.ok(rule, "match_glyph / %s: non-mark glyphs (class != 3) match" % name)
+        else:
+            run.fail(rule, "marks:%s" % name, "match_glyph / %s does not compare the glyph class with 3: base and ligature glyphs are rejected (skipped) by a "
+                     "flag that, by the specification, only filters marks" % name, b.loc(b.term(tgt)) if b.term(tgt).get("line") else "%s:%s" % (b.file, b.line))
+    if n < 3:
+        run.anchor_missing(rule, "three mark-skipping arms in match_glyph (found %d)" % n)
+
+
 def check(run, fx, tier, floors=True):
     t04_type(run, fx)
     t04_rd(run, fx)
@@ -501,4 +548,6 @@ def check(run, fx, tier, floors=True):
     t04_rvrn(run, fx)
     t04_disp(run, fx)
     t04_skip(run, fx)
+    if floors or fx.adt("context::IgnoreMarks") is not None:
+        t04_marks(run, fx)
     recursion.run_rule(run, fx, "C01-a", lambda f: any(p.startswith("gsub::") for p in f.local_paths), floors_n=1 if floors else None)
